@@ -28,6 +28,9 @@ func GenDescs(r *gen.Rand, max int) []Desc {
 		if r.Chance(12) && d.Tag != 0x52 && d.Tag != 0x0e && d.Tag != 0x0a && d.Tag != 0x7f && d.Tag != 0x05 && d.Tag != 0xb0 {
 			n = r.Intn(60)
 		}
+		if r.Chance(40) && d.Tag != 0x52 && d.Tag != 0x0e && d.Tag != 0x0a && d.Tag != 0x7f && d.Tag != 0x05 && d.Tag != 0xb0 {
+			n = r.PickInt([]int{253, 254, 255, 255}) // the largest bodies descriptor_length can announce
+		}
 		d.Body = r.Bytes(n)
 		if d.Tag == 0x0a {
 			for k := 0; k+4 <= n; k += 4 {
@@ -74,6 +77,29 @@ func GenPMT(r *gen.Rand, nStreams int) PMT {
 			maxd = 1
 		}
 		p.Streams = append(p.Streams, ES{Type: genStreamTypes[r.Intn(len(genStreamTypes))], PID: pid, Descs: GenDescs(r, maxd)})
+	}
+	if nStreams < 0 && r.Chance(25) {
+		// a section at (or within a few bytes of) the 1021-byte section_length limit
+		for len(p.Section()) < 1024 {
+			pid := 16 + r.Intn(8170)
+			for used[pid] {
+				pid = 16 + r.Intn(8170)
+			}
+			used[pid] = true
+			room := 1024 - len(p.Section()) - 5
+			if room < 0 {
+				break
+			}
+			var ds []Desc
+			if room >= 2 {
+				n := room - 2
+				if n > 60 {
+					n = r.Intn(60)
+				}
+				ds = []Desc{{Tag: 0x81, Body: r.Bytes(n)}}
+			}
+			p.Streams = append(p.Streams, ES{Type: 0x1b, PID: pid, Descs: ds})
+		}
 	}
 	// keep the section within the 1021-byte section_length limit
 	for len(p.Section()) > 1024 && len(p.Streams) > 0 {
